@@ -121,7 +121,8 @@ def run(ctx):
                     "Rank1(p)+Rank0(p) = p, batch actions accept the defined answers and reject every "
                     "single-answer corruption")
     # --- the real implementations on generated vectors
-    s = ctx.harness(BIN, "drive", "b1", timeout=2400)
+    # C04_SUBJECTS=a,b restricts the subjects (debugging aid; the evidence then covers only those)
+    s = ctx.harness(BIN, "drive", "b1", timeout=3000, subject=os.environ.get("C04_SUBJECTS") or None)
     files = _files(s)
     if not files:
         raise vlib.ToolError("c04 produced no traces")
@@ -151,7 +152,9 @@ def run(ctx):
         nontrivial += d.get("nontrivial_runs", 0)
         if d.get("nontrivial_runs", 0) == 0:
             vacuous.append(name)
-        if d.get("select0_not_offered", 0) and d.get("select0_not_offered", 0) >= d.get("runs", 0) - d.get("panics", 0) > 0:
+        # every run that reached select0 was answered "not implemented"
+        reached = d.get("runs", 0) - d.get("panics", 0) - d.get("build_refused", 0)
+        if d.get("select0_not_offered", 0) and d.get("select0_not_offered", 0) >= reached > 0:
             sel0_missing.append(name)
     cov["distinct_nontrivial"] = nontrivial
     cov["vacuous_subjects"] = vacuous
